@@ -103,12 +103,6 @@ Definition doc_outcome (c : cell) : outcome :=
 
 Definition doc_edges : list (cell * outcome) := map (fun c => (c, doc_outcome c)) all_cells.
 
-Definition dnode_eqb (a b : dnode) : bool :=
-  match a, b with
-  | DRecv, DRecv | DHashL, DHashL | DHashP, DHashP | DHit, DHit | DMiss, DMiss | DPass, DPass
-  | DFetch, DFetch | DError, DError | DDeliver, DDeliver | DLog, DLog => true
-  | _, _ => false
-  end.
 Definition cell_eqb (x y : cell) : bool :=
   let '(n1, a1, b1) := x in let '(n2, a2, b2) := y in
   dnode_eqb n1 n2 && action_eqb a1 a2 && Bool.eqb b1 b2.
